@@ -54,6 +54,9 @@ Session.commit (flush, COMMIT, expire_on_commit →      `Op.commit`
   _expire for every state)
 Session.rollback (pass-through without transaction;    `Op.rollback`
   else ROLLBACK and every state expired)
+loading._load_scalar_attributes for an inheriting       `loadScalarAttributes` (decision only; the
+  mapper: _optimized_get_statement → FromStatement →      transition system is the single-table
+  `return _load_on_ident(...)` (result not examined)      mapper), `Gen.ExpireCfg.optimizedGetResultChecked`
 another connection: UPDATE / DELETE / INSERT + COMMIT   `Op.extSet`, `Op.extDel`, `Op.extIns`
   (SQLite: impossible while the session holds           (skipped while `St.saved` is some)
   uncommitted DML; the harness skips in that case)
@@ -378,6 +381,39 @@ def step (c : Cfg) (st : St) : Op → St × Out
       ({ st with objs := fun j => if j = k then some (cleanCopy o) else st.objs j,
                  det := fun j => if j = k then none else st.det j, txn := true }, .done)
     | _, _ => (st, .skip)
+
+/-! ### `loading._load_scalar_attributes`: which SELECT unexpires, and what "no row" becomes
+
+The transition system above is the single-table mapper (`mapper.inherits` is None): `read` of an
+unloaded attribute whose row vanished gives `Out.gone` (the `has_key and result is None →
+ObjectDeletedError` test at the end of `_load_scalar_attributes`).  A mapper that inherits
+(joined-table) first tries `mapper._optimized_get_statement`; that branch is transcribed here. -/
+
+/-- outcome of unexpiring attributes of a persistent instance -/
+inductive Unexpired
+  | loaded          -- the row was found, the attributes are populated
+  | objectDeleted   -- ObjectDeletedError
+  | nothing         -- no row and no error: the attributes stay out of the dict, `_load_expired`
+                    -- clears `expired_attributes`; `AttributeImpl.get` raises
+                    -- KeyError("Deferred loader for attribute … failed to populate correctly")
+                    -- and every later read returns None without touching the database
+deriving DecidableEq, Repr
+
+/-- `inherits`: `mapper.inherits and not mapper.concrete`;
+    `optimized`: `mapper._optimized_get_statement(state, attribute_names) is not None` (every
+    attribute to load lives in a subclass table and the key values are loaded);
+    `row`: the SELECT found the row;
+    `checked`: the branch examines the result of `_load_on_ident` (else: `return _load_on_ident(…)`) -/
+def loadScalarAttributesWith (checked inherits optimized row : Bool) : Unexpired :=
+  if inherits && optimized then
+    if row then .loaded else (if checked then .objectDeleted else .nothing)
+  else
+    -- `select(mapper)` by identity key; `if has_key and result is None: raise ObjectDeletedError`
+    if row then .loaded else .objectDeleted
+
+/-- the working tree's `_load_scalar_attributes` -/
+def loadScalarAttributes : Bool → Bool → Bool → Unexpired :=
+  loadScalarAttributesWith SaVerif.Gen.ExpireCfg.optimizedGetResultChecked
 
 def run (c : Cfg) (st : St) : List Op → St
   | [] => st
